@@ -190,9 +190,9 @@ fn m_settings_unknown_inserted() {
 }
 
 // @h props=C14,C16 tier=quick t=1800 sub=settings-roundtrip
-// @fn wtransport-proto/src/settings.rs SettingsBuilder::{qpack_max_table_capacity,qpack_blocked_streams,enable_connect_protocol,enable_webtransport,enable_h3_datagrams,webtransport_max_sessions,build} Settings::{generate_frame,generate_frame_ref,with_frame,get}
+// @fn wtransport-proto/src/settings.rs SettingsBuilder::{qpack_max_table_capacity,qpack_blocked_streams,enable_connect_protocol,enable_webtransport,enable_h3_datagrams,webtransport_max_sessions,build} Settings::{generate_frame_ref,with_frame,get}
 // @bound every subset of the six builder operations (symbolic choice), values: every varint for the three valued settings; destination capacity 0..=48
-// @oracle generate_frame_ref bytes == generate_frame bytes; payload decodes under the reference parser into distinct, non-reserved (id,value) pairs equal to what was built (C16); with_frame(generate_frame()) yields the same map (C14); too-small buffer => Err
+// @oracle generate_frame_ref is Err exactly when the destination is smaller than the reference size; payload decodes under the reference parser into distinct, non-reserved (id,value) pairs equal to what was built (C16); with_frame(generate_frame_ref()) yields the same map (C14). The allocating twin `generate_frame` (Vec growth under symbolic sizes timed out) is exercised on the concrete WebTransport profile by d_local_settings
 // @assume model map
 #[kani::proof]
 #[kani::unwind(14)]
@@ -227,8 +227,42 @@ fn m_settings_roundtrip() {
     let mut scratch = [0u8; 48];
     let cap: usize = kani::any();
     kani::assume(cap <= 48);
-    let f1 = s.generate_frame();
+    // reference size of the payload
+    let mut want = 0usize;
+    if pick[0] {
+        want += 1 + ref_varint_len(a);
+    }
+    if pick[1] {
+        want += 1 + ref_varint_len(b);
+    }
+    if pick[2] {
+        want += 2;
+    }
+    if pick[3] {
+        want += 5;
+    }
+    if pick[4] {
+        want += 2;
+    }
+    if pick[5] {
+        want += 8 + ref_varint_len(c);
+    }
+    // `generate_frame_ref` (no allocation): Err exactly when the buffer is too small
+    let f1 = match s.generate_frame_ref(&mut scratch[..cap]) {
+        Ok(f) => {
+            assert!(cap >= want, "generate_frame_ref wrote more than the buffer holds");
+            kani::cover!(cap == want && want > 0, "exact fit");
+            f
+        }
+        Err(_) => {
+            assert!(cap < want, "generate_frame_ref refused a sufficient buffer");
+            kani::cover!(true, "too small");
+            core::mem::forget(s);
+            return;
+        }
+    };
     let plen = f1.payload().len();
+    assert!(plen == want, "payload size differs from the reference size");
     assert!(matches!(f1.kind(), FrameKind::Settings));
     // reference decode of the generated payload: distinct known ids with the built values
     let mut seen = [false; 7];
@@ -244,30 +278,19 @@ fn m_settings_roundtrip() {
             IdClass::Known(k) => {
                 assert!(!seen[k as usize], "generated SETTINGS repeats an identifier");
                 seen[k as usize] = true;
-                let want = match k {
+                let w = match k {
                     0 => a,
                     2 => b,
                     6 => c,
                     _ => 1,
                 };
-                assert!(val == want, "generated SETTINGS value differs from the built one");
+                assert!(val == w, "generated SETTINGS value differs from the built one");
             }
             _ => assert!(false, "generated SETTINGS contains a reserved / unknown identifier"),
         }
     }
     assert!(seen[0] == pick[0] && seen[2] == pick[1] && seen[3] == pick[2] && seen[5] == pick[3] && seen[4] == pick[4] && seen[6] == pick[5] && !seen[1],
         "generated SETTINGS advertise a different set than built");
-    // generate_frame_ref: same bytes or Err when too small
-    match s.generate_frame_ref(&mut scratch[..cap]) {
-        Ok(f2) => {
-            assert!(cap >= plen && f2.payload().len() == plen && eq_prefix(f2.payload(), p, plen), "generate_frame_ref differs from generate_frame");
-            kani::cover!(cap == plen && plen > 0, "exact fit");
-        }
-        Err(_) => {
-            assert!(cap < plen, "generate_frame_ref refused a sufficient buffer");
-            kani::cover!(true, "too small");
-        }
-    }
     // decode∘encode
     match Settings::with_frame(&f1) {
         Ok(t) => {
@@ -278,7 +301,7 @@ fn m_settings_roundtrip() {
             }
             core::mem::forget(t);
         }
-        Err(_) => assert!(false, "with_frame(generate_frame()) failed"),
+        Err(_) => assert!(false, "with_frame(generate_frame_ref()) failed"),
     }
     kani::cover!(pairs == 6, "all six settings");
     kani::cover!(pairs == 0, "empty settings");
